@@ -58,3 +58,7 @@ META = {
     "C08": _meta("Supervision applies exactly the decided directive to exactly the strategy's targets."),
     "C09": _meta("No survivor stays paused or half-stopped; queued mail survives restart; zombie behaviour."),
 }
+
+PROPERTIES["C19"] = {"components": ["actor"], "coq_files": ["Properties/C19_core.v"], "rule": _RULE + "; plus event-stream scenarios: 2-4 subscribers under one parent, two event types, subscribe twice / unsubscribe / unsubscribe-all / publish from actors and racing external callers, subscribers dying (poison or not) and being restarted in between",
+                     "modelled_not_verified": _MNV + ["publication order per publisher at each subscriber follows from per-sender FIFO (C02)"], "monitor_filter": r"^c19-|^crash$"}
+META["C19"] = _meta("Event stream: table invariants, fan-out = the subscribers at the snapshot, cleanup on death, restart keeps subscriptions.")
